@@ -25,8 +25,8 @@ TEXT = {
  "C15": "side rule and mismatch-iff theorems for all binary operators (scalars on either side), mask/where/fillna by a function, one-operand operations, clip, layering, tuple shorthands (never a mismatch). Collection aggregation, cov/corr, shift and resample are covered by the complete shapes x sides grid of the correspondence check.",
  "C16": "binary_operators_respect_denotation, one_operand_operations_respect_denotation, materialisation_is_invisible: results depend only on the denoted functions and closed sides (for the minimal, well-formed objects the public API produces). Construction routes, scalar types and compositions are exercised by programs run in four provenance / materialisation / scalar-type variants each against the one model result.",
  "C17": "every theorem of C01-C07, C12, C15, C16 is stated for an arbitrary ordered domain (Ord D); relabelling by a strictly increasing map preserves well-formedness and commutes with evaluation and the binary operators; a change of unit / origin k -> a k + b (a > 0) is such a relabelling under which the integral and value sums scale by a while mean, the value distribution (ecdf, percentiles, median, hist probabilities) and var do not change. That pandas' int64 / datetime64 / tz-aware / Timedelta indexes are such images of one another (and that results come back as Timedeltas) is replayed on every run: each program is run in 7 domain flavours (int, float, naive datetime, tz-aware fixed / DST / UTC, timedelta) against the one model run.",
- "C18": "aggregation_is_pointwise (wf, minimal, side rule, pointwise reduce incl. NaN propagation), sum_is_folding_plus, aggregation_rejects_exactly_mixed_sides; the collection layer of Model/Arrays.v: array_operator_is_the_stairs_operator_pair_by_pair (+ broadcast scalar / Stairs, the r-forms, first failing member decides), sample / limit tables agree with per-member calls, matrices_are_square_and_symmetric, cov / corr matrix entries are the pairwise Stairs results in either order (via cov_symmetric / corr_symmetric of C19), corr diagonal one or undefined. The table and matrix definitions are evaluated by the correspondence check against the real sc.sample / sc.limit / sc.cov / sc.corr calls; the element-wise operators are compared member by member (the theorem says that is arr_binop). Container types and the Series accessor: correspondence flavours.",
- "C19": "operands_are_restricted_to_the_common_defined_region (pointwise), cov_is_mean_of_product_minus_product_of_means (the composition the model mirrors from the code; its means are the length-weighted ones of C08), a_lag_is_a_shift_of_g_with_the_window_rule (clip='pre' / 'post'), cov_is_symmetric, corr_is_symmetric (via canonical minimal forms), corr_of_opposite_sides_is_rejected, cov_of_f_with_itself_is_var over finite windows (weighted_sums_depend_only_on_the_represented_function: the integral of a step table is a Riemann sum over any refinement of its step points) and corr_lies_between_minus_one_and_one (Cauchy-Schwarz over the common refinement of the three clipped tables). corr involves a square root: the model returns the signed square sign(cov) cov^2 / (var_f var_g) and the theorems are stated for it; numpy's sqrt, and datetime windows with Timedelta lags, are tied by the correspondence check + the rational oracle.",
+ "C18": "aggregation_is_pointwise (wf, minimal, side rule, pointwise reduce incl. NaN propagation), sum_is_folding_plus, aggregation_rejects_exactly_mixed_sides; the collection layer of Model/Arrays.v: array_operator_is_the_stairs_operator_pair_by_pair (+ broadcast scalar / Stairs, the r-forms, first failing member decides), sample / limit tables agree with per-member calls, matrices_are_square_and_symmetric, cov / corr matrix entries are the pairwise Stairs results in either order (via cov_symmetric / corr_symmetric of C19), corr diagonal one or undefined (= the self-correlation, which is one wherever defined). The table and matrix definitions are evaluated by the correspondence check against the real sc.sample / sc.limit / sc.cov / sc.corr calls; the element-wise operators are compared member by member (the theorem says that is arr_binop). Container types and the Series accessor: correspondence flavours.",
+ "C19": "operands_are_restricted_to_the_common_defined_region (pointwise), cov_is_mean_of_product_minus_product_of_means (the composition the model mirrors from the code; its means are the length-weighted ones of C08), a_lag_is_a_shift_of_g_with_the_window_rule (clip='pre' / 'post'), cov_is_symmetric, corr_is_symmetric (via canonical minimal forms), corr_of_opposite_sides_is_rejected, cov_of_f_with_itself_is_var over finite windows (weighted_sums_depend_only_on_the_represented_function: the integral of a step table is a Riemann sum over any refinement of its step points) corr_lies_between_minus_one_and_one (Cauchy-Schwarz over the common refinement of the three clipped tables), var_over_a_window_is_non_negative and corr_of_f_with_itself_is_one. corr involves a square root: the model returns the signed square sign(cov) cov^2 / (var_f var_g) and the theorems are stated for it; numpy's sqrt, and datetime windows with Timedelta lags, are tied by the correspondence check + the rational oracle.",
  "C20": "shift_translates and diff_is_f_minus_shifted_f; rolling_mean_returns_the_window_means_at_the_knots (the rows are exactly the x at which a window edge x+l / x+r meets a step point of f restricted to `where`, inside [lower-l, upper-r], each with the slicer mean over its window), the_window_mean_is_the_mean_of_the_restriction (that mean is the C08 length-weighted mean), and linear_interpolation_reproduces_the_rolling_mean (with no other sample point strictly between x1 and x2 and f defined throughout the windows, the window mean at every x in [x1, x2] is the linear interpolation of the means at x1 and x2; via a window integral that is additive and constant where no step point is crossed). Timedelta shifts and windows on datetime domains: correspondence (domain flavours).",
 }
 def main():
